@@ -256,6 +256,18 @@ func removeNodes[T any](nodes []*node[T], pattern string) []*node[T] {
 	return nodes
 }
 
+// 从 nodes 中删除节点 n
+//
+// 与 [removeNodes] 不同，此方法比较的是节点本身而不是节点的内容。
+// 同一父节点下可能存在内容相同但类型不同的节点，
+// 比如 [Hosts] 在添加了 {id:\\d+}.example.com 之后才为 \\d+ 注册拦截器，再添加的同名节点类型就会不同。
+func removeNode[T any](nodes []*node[T], n *node[T]) []*node[T] {
+	if index := slices.Index(nodes, n); index >= 0 {
+		return slices.Delete(nodes, index, index+1)
+	}
+	return nodes
+}
+
 // 将节点 n 从 pos 位置进行拆分。后一段作为当前段的子节点，并返回当前节点。
 // 若 pos 大于或等于 n.pattern 的长度，则直接返回 n 不会拆分，pos 处的字符作为子节点的内容。
 //
@@ -269,7 +281,7 @@ func splitNode[T any](n *node[T], pos int) (*node[T], error) {
 	if p == nil {
 		panic("节点必须要有一个有效的父节点，才能进行拆分")
 	}
-	p.children = removeNodes(p.children, n.segment.Value) // 先从父节点中删除老的 n
+	p.children = removeNode(p.children, n) // 先从父节点中删除老的 n
 
 	segs, err := n.segment.Split(n.root.interceptors, pos)
 	if err != nil {
